@@ -75,7 +75,13 @@ def main(argv=None):
         cases = cases[: args.max_cases]
     print("%s tier=%s seed=%d: %d cases" % (pid, tier, seed, len(cases)), file=sys.stderr, flush=True)
     budget = getattr(mod, "TIER_BUDGET_S", {}).get(tier)
-    results = runner.run_cases(modname, cases, mod, workers=args.workers, budget_s=budget)
+    os.environ["VF_RUN_TAG"] = str(os.getpid())
+    try:
+        results = runner.run_cases(modname, cases, mod, workers=args.workers, budget_s=budget)
+    finally:
+        from vf.core import pz as _pz
+
+        _pz.sweep_scratch(os.environ["VF_RUN_TAG"])
 
     import fnmatch
 
